@@ -143,11 +143,14 @@ func (s *Server) handleConn(ctx context.Context, conn net.Conn) error {
 			return nil
 		case *pgproto3.Query:
 			start := time.Now()
+			// trimmed is for the audit log only: the decision is made on (and cached
+			// for) the text that is forwarded, never on a shortened copy of it.
 			trimmed := trimQuery(m.String)
-			key := cacheKey(trimmed)
+			full := strings.TrimSpace(m.String)
+			key := cacheKey(full)
 			decision, hit := cache.get(key)
 			if !hit {
-				allowed, reason, topics, showTopics := authorizeQuery(acl, trimmed)
+				allowed, reason, topics, showTopics := authorizeQuery(acl, full)
 				decision = cacheDecision{
 					created:    time.Now(),
 					allowed:    allowed,
